@@ -236,8 +236,8 @@ func c05Check(c *core.Ctx, va verifyAdapter, in []byte, sh gen.Shape, derivation
 func flipMasks(c *core.Ctx) []byte { return []byte{0x01, 0x80, 0xff} }
 
 func runC05(c *core.Ctx) {
-	n := c.N(48, 1200)  // signed originals per (kind, type) class
-	full := c.N(4, 150) // of those, how many get the every-byte-position sweep
+	n := c.N(48, 640)  // signed originals per (kind, type) class
+	full := c.N(4, 80) // of those, how many get the every-byte-position sweep
 
 	type class struct {
 		name string
@@ -289,7 +289,7 @@ func runC05(c *core.Ctx) {
 			} else {
 				c.Bucket("original-not-verified-by-library/" + cl.name)
 			}
-			if i%4 == 0 {
+			if (i+i/16)%4 == 0 { // one case in four, spread over all shards
 				c05Edited(c, va, sc, r)
 			}
 			// bit flips: every byte position for the first `full` cases, a stratified sample otherwise
